@@ -2,11 +2,12 @@
 from __future__ import annotations
 
 import ast
+import keyword
 import re
 
 from typing import Any
 
-from ..charclass import EITHER, FACTS, CharInterp, I, L, S, bad_identifier_chars, join_s, members
+from ..charclass import EITHER, FACTS, CharInterp, I, L, S, bad_identifier_chars, bits_of_str, join_s, members
 from ..astutil import Locals, anon, call_name, cfg_of, constructs_error, local_names, norm, region, short, stmt_of
 from ..cfg import walk_own
 from ..core import PKG, AnalysisError, Report
@@ -23,14 +24,16 @@ LEVEL = ("(a) validity: abstract interpretation of the naming pipeline over sets
          "for ALL strings (exhaustive over 0x110000 code points, not sampled); (b) every field annotated "
          "PythonIdentifier/ClassName only ever receives constructor results (interprocedural label analysis); "
          "(b') every printed expression standing at an identifier-required position of a generated line (decided from the generated "
-         "text around it) is reached only by text labelled IDENT / CONST / ENUM / WORD / NUM; "
+         "text around it) is reached only by text labelled IDENT / CONST / ENUM / WORD / NUM, and cannot be a keyword (affix no keyword "
+         "has, or renamed by the constructors and since passed only through filters E6 shows keyword-free); "
          "(c) uniqueness scopes: keyed registry stores dominated by membership tests leading to diagnostics, conflict "
          "resolution followed by re-checks (CFG dominance / path rules); (d) the constructor mode that R09.1 shows to let delimiters "
          "through is traced over the call graph (forwarding parameters, defaults, locals) to every site that can select it: each is "
          "preceded on every path by a collision test of derived names; (e) the operation's parameter pass reads every parameter "
          "collection of the operation (fields by declared element type, and those whose names the templates print); (f) where those "
          "collections are filled, one element per item of an iteration, a decision that looks at the elements already collected and can "
-         "end the iteration without adding the item reads everything that determines the item's place and name.")
+         "end the iteration without adding the item reads everything that determines the item's place and name; (g) the directory "
+         "that is the importable package is, for every outcome of the constructor's tests, the user's output_path or named by package_name.")
 
 
 def run(rep: Report, ctx: Any) -> str:
@@ -48,7 +51,13 @@ def run(rep: Report, ctx: Any) -> str:
     rep.rule("R09.2", "fields annotated PythonIdentifier / ClassName only ever receive results of those constructors; every template "
                       "hole that prints such a field carries constructor results only; every identifier-required position of the "
                       "generated code (assignment / annotation target, keyword, parameter, attribute, def / class / import / for name) "
-                      "receives identifier material only, whatever expression the template prints there")
+                      "receives identifier material only, whatever expression the template prints there; and the token printed "
+                      "there is not a keyword (`...::not-keyword`): the template writes an affix around the expression that no keyword "
+                      "has, or the expression - read through `set` variables, macro arguments at every call of a macro of that name, "
+                      "defaults, conditionals, literal affixes of a concatenation - is a constructor result / repository constant / "
+                      "number that has passed only through filters whose result E6 shows never to spell a keyword (upper) or that "
+                      "hand an identifier on unchanged (string, safe, trim); text of the word helpers (snake_case & co., which do not "
+                      "rename reserved words) is admitted bare only as a key of the enum member table, whose stores R09.1 decides")
     rep.assumptions += [
         "config.field_prefix matches [A-Za-z][A-Za-z0-9_]* and prefix+name does not spell a keyword (the user's own configuration)",
         "CPython's str.isidentifier / re \\w / case mappings tabulated over all code points are the definition of validity",
@@ -97,7 +106,8 @@ def run(rep: Report, ctx: Any) -> str:
         name = f"EnumProperty.values_from_list::member-name[{kind}" + (f",{sub}" if kind == "str" else "") + "]"
         seen[name] = seen.get(name, 0) + 1
         key = name + (f"#{seen[name]}" if kind == "int" else "")
-        validity_obligations(rep, t, key, k, "enum member name", f"{f.module.rel}:{line}", cond)
+        validity_obligations(rep, t, key, k, "enum member name", f"{f.module.rel}:{line}", cond,
+                             reserved=k.nokw is not True and bool(spellable_keywords(k)))
 
     # helper-derived names: check_<snake_case(ClassName)> and module-level <SNAKE>_VALUES
     sc = ix.func("utils.snake_case")
@@ -155,7 +165,10 @@ def run(rep: Report, ctx: Any) -> str:
     by_site: dict[tuple, list[Any]] = {}
     for e in ji.emissions.values():
         by_site.setdefault((e.template, e.macro, e.expr, e.ordinal), []).append(e)
-    for tname, macro, node, kind in name_positions(ctx.jinja):
+    member_fields = member_table_fields(ix, ix.func("EnumProperty.values_from_list"))
+    safety = KeywordSafety(ctx, ch, ji, member_fields)
+    n_bare = 0
+    for tname, macro, node, kind, pre, suf in name_positions(ctx.jinja):
         et = expr_text(node)
         ordinal = ji.ordinals.get((tname, macro, et), {}).get(id(node))
         es = [e for e in by_site.get((tname, macro, et, ordinal), []) if e.kind == "CODE" and e.labels]
@@ -167,7 +180,24 @@ def run(rep: Report, ctx: Any) -> str:
                   f"text that is not identifier material reaches a {kind} position of the generated code: "
                   f"{[f'{h} labelled {l}' for h, l in bad][:4]}", where=f"{tname}:{getattr(node, 'lineno', 0)}",
                   lhs=sorted({l for e in es for l in e.labels}), rhs=sorted(NAME_MATERIAL))
+        # (d) ... and the token is not a keyword: the template writes an affix around the expression that no keyword has, or what is
+        #     printed has passed the reserved-word renaming and nothing that can undo it since
+        if affix_excludes_keywords(pre, suf):
+            continue
+        labels = frozenset(l for e in es for l in e.labels)
+        if labels <= {CONST, ENUM, NUM}:
+            continue  # the repository's own text, the same for every document: no name the document chooses is printed here
+        n_bare += 1
+        why = safety.reason(tname, macro, node, labels)
+        rep.check(why is None, "R09.2", f"{tname}::{macro}::{et}#{ordinal}@{kind}::not-keyword",
+                  f"the {kind} position of the generated code can receive a Python keyword: {why}; only the name constructors rename "
+                  "reserved words, and a keyword at this position makes the generated module a syntax error",
+                  where=f"{tname}:{getattr(node, 'lineno', 0)}", lhs=why or "renamed, and unchanged since",
+                  rhs="constructor result printed as it is (or through a filter E6 shows keyword-free), or an affix no keyword has")
     rep.floor("name_emissions", n_e, 50)
+    rep.floor("bare_name_tokens", n_bare, 30)
+    rep.not_decided.append("R09.2 (not-keyword): a case change or re-derivation applied on the Python side to a constructor result that is then "
+                           "stored where the templates read it (the text keeps the label IDENT); tokens put together from two printed expressions")
     rep.not_decided.append("WORD text (\\w-words from snake_case & co.) is admitted at name positions: validity of the two producers that "
                            "occur (enum member names, check_<snake_case(class)>) is decided by R09.1, other producers are not distinguished")
 
@@ -178,6 +208,7 @@ def run(rep: Report, ctx: Any) -> str:
     check_weak_mode(rep, ctx, "R09.4", ix.func("PythonIdentifier.__new__"), MODE_PARAM, leak)
     sources = check_pass_sources(rep, ctx, "R09.5")
     check_no_silent_loss(rep, ctx, "R09.6", sources)
+    check_package_directory(rep, ctx, "R09.7")
     return LEVEL
 
 
@@ -379,11 +410,223 @@ def position_kind(before: str, after: str) -> str | None:
     return None
 
 
-def name_positions(jx: Any) -> list[tuple[str, str, Any, str]]:
-    """(template, macro, printed expression node, kind) of every `{{ ... }}` that stands at an identifier-required position."""
+# ---- keyword-safety of what is printed at a name position ------------------------------------------------------------------------
+def spellable_keywords(s: S) -> list[str]:
+    """the keywords the abstract string can be, as far as its alphabet tells (every character of the keyword is among its characters,
+    the first among its first characters)"""
+    if s.finite is not None:
+        return sorted(k for k in keyword.kwlist if k in s.finite)
+    return [k for k in keyword.kwlist if not (bits_of_str(k) & ~s.any) and (bits_of_str(k[0]) & s.first)]
+
+
+def affix_excludes_keywords(pre: str, suf: str) -> bool:
+    """no keyword begins with `pre` and ends with `suf`: whatever is printed between them, the token is not a keyword"""
+    return bool(pre or suf) and not any(k.startswith(pre) and k.endswith(suf) and len(k) >= len(pre) + len(suf) for k in keyword.kwlist)
+
+
+def member_table_fields(ix: Any, f: Any) -> set[str]:
+    """the names (keyword / attribute) under which the result of f - the table of member names R09.1 decides - is stored"""
+    out: set[str] = set()
+    for g in ix.all_functions:
+        lc = Locals(g.node)
+
+        def is_result(e: ast.AST, depth: int = 2) -> bool:
+            if isinstance(e, ast.Call):
+                return _is_call_of(e, f, g.module)
+            if isinstance(e, ast.Name) and depth > 0:
+                return any(is_result(v, depth - 1) for v in lc.values_of(e.id))
+            return False
+
+        for n in ast.walk(g.node):
+            if isinstance(n, ast.Call):
+                out |= {kw.arg for kw in n.keywords if kw.arg and is_result(kw.value)}
+            elif isinstance(n, ast.Assign) and is_result(n.value):
+                out |= {t_.attr for t_ in n.targets if isinstance(t_, ast.Attribute)}
+    return out
+
+
+def _without_grouping_parentheses(text: str) -> str:
+    """the canonical text of a template expression without the parentheses that only group (a `set` variable reads as its
+    parenthesised definition); the parentheses of a call stay"""
+    out: list[str] = []
+    stack: list[bool] = []
+    for i, c in enumerate(text):
+        if c == "(":
+            is_call = i > 0 and (text[i - 1].isalnum() or text[i - 1] in "_])")
+            stack.append(is_call)
+            if not is_call:
+                continue
+        elif c == ")" and stack:
+            if not stack.pop():
+                continue
+        out.append(c)
+    return "".join(out)
+
+
+_STR_METHOD_OF_FILTER = {"upper": "upper", "lower": "lower", "capitalize": "capitalize", "title": "title"}
+_UNCHANGED_BY_FILTER = {"string", "safe", "trim"}  # filters of jinja2 that hand an identifier (no white space in it) on as it is
+
+
+class KeywordSafety:
+    """Whether the text a template prints at a name position can be a Python keyword.  The reserved-word renaming happens in the name
+    constructors (R09.1: `not-reserved` per return path) and nowhere else, so text is keyword-free when it is a constructor result
+    (label IDENT; constants of the repository and numbers cannot be chosen by the document) that has since passed only through
+    operations E6 shows unable to produce a keyword.  The printed expression is read through `set` variables (their definitions) and
+    macro parameters (the arguments of every call of a macro of that name, and the default)."""
+
+    def __init__(self, ctx: Any, ch: CharInterp, ji: Any, member_fields: set[str]) -> None:
+        self.ix, self.jx, self.ch, self.ji, self.t = ctx.py, ctx.jinja, ch, ji, ctx.tables
+        self.member_fields = member_fields
+        self._filter: dict[str, str] = {}
+        self._calls: "dict[str, list[tuple[str, str, Any]]] | None" = None
+        self._sets: dict[str, dict[str, list[tuple[str, Any]]]] = {}
+
+    # what a filter does to a renamed identifier: "never" (its result is never a keyword, whatever it is given), "keeps" (hands the text
+    # on unchanged), or the keywords it can produce
+    def filter_effect(self, name: str) -> str:
+        if name in self._filter:
+            return self._filter[name]
+        t = self.t
+        ident = S(t.ID_CONT, t.ID_START, False, True, None, None, False, True)
+        out: Any = None
+        try:
+            if name in _UNCHANGED_BY_FILTER:
+                out = ident
+            elif name in _STR_METHOD_OF_FILTER:
+                e = ast.parse(f"value.{_STR_METHOD_OF_FILTER[name]}()", mode="eval").body
+                out = self.ch.ev(e, {"value": ident}, self.ch.utils)
+            else:
+                av = self.ji.filters.get(name)
+                quals = {q for kind, q in (av.funcs if av is not None else ()) if kind == "func"}
+                fs = [g for g in self.ix.all_functions if g.qual in quals]
+                if fs and len(fs) == len(quals) and all(g.params for g in fs):
+                    for g in fs:
+                        r, _ = self.ch.run_function(g, {g.params[0].arg: ident})
+                        out = join_s(out, r) if isinstance(r, S) and (out is None or isinstance(out, S)) else ("?",)
+        except AnalysisError:
+            out = None
+        if not isinstance(out, S):
+            how = "what it computes is not known to the character analysis"
+        elif out.nokw is True:
+            how = "keeps"
+        else:
+            kws = spellable_keywords(out)
+            how = "never" if not kws else (f"its result is not shown to differ from {', '.join(repr(k) for k in kws[:4])}{' ...' if len(kws) > 4 else ''} "
+                                                "when it is given a name that is no keyword")
+        self._filter[name] = how
+        return how
+
+    def sets_of(self, tname: str) -> dict[str, list[tuple[str, Any]]]:
+        """canonical name of a `set` variable -> (macro it is defined in, defining node) of template tname"""
+        from jinja2 import nodes
+
+        if tname not in self._sets:
+            got: dict[str, list[tuple[str, Any]]] = {}
+
+            def walk(n: Any, macro: str) -> None:
+                for c in n.iter_child_nodes():
+                    if isinstance(c, (nodes.Assign, nodes.AssignBlock)) and isinstance(c.target, nodes.Name):
+                        got.setdefault(c.target.name, []).append((macro, c))
+                    walk(c, c.name if isinstance(c, nodes.Macro) else macro)
+
+            walk(self.jx.templates[tname].tree, "<top>")
+            self._sets[tname] = got
+        return self._sets[tname]
+
+    def calls_of(self, mname: str) -> list[tuple[str, str, Any]]:
+        """(template, macro, call node) of every call of a macro called mname (`m(...)`, `alias.m(...)`, `{% call m(...) %}`)"""
+        from jinja2 import nodes
+
+        if self._calls is None:
+            self._calls = {}
+
+            def walk(n: Any, tname: str, macro: str) -> None:
+                for c in n.iter_child_nodes():
+                    if isinstance(c, nodes.Call):
+                        callee = c.node.name if isinstance(c.node, nodes.Name) else c.node.attr if isinstance(c.node, nodes.Getattr) else None
+                        if callee is not None:
+                            self._calls.setdefault(callee, []).append((tname, macro, c))  # type: ignore[union-attr]
+                    walk(c, tname, c.name if isinstance(c, nodes.Macro) else macro)
+
+            for tname, ti in self.jx.templates.items():
+                walk(ti.tree, tname, "<top>")
+        return self._calls.get(mname, [])
+
+    def reason(self, tname: str, macro: str, n: Any, labels: frozenset[str], depth: int = 4) -> "str | None":
+        """None: what n prints cannot be a keyword; otherwise why it can (or why that cannot be shown)"""
+        from jinja2 import nodes
+
+        if n is None:
+            return None
+        if isinstance(n, nodes.Const):
+            return f"the literal {n.value!r}" if isinstance(n.value, str) and keyword.iskeyword(n.value) else None
+        if isinstance(n, nodes.Filter):
+            how = self.filter_effect(n.name)
+            if how == "never":
+                return None
+            if how == "keeps":
+                return self.reason(tname, macro, n.node, labels, depth)
+            return f"`{expr_text(n)[:70]}` passes the name through `|{n.name}`: {how}"
+        if isinstance(n, nodes.CondExpr):
+            return self.reason(tname, macro, n.expr1, labels, depth) or self.reason(tname, macro, n.expr2, labels, depth)
+        if isinstance(n, (nodes.Concat, nodes.Add)):
+            parts = list(n.nodes) if isinstance(n, nodes.Concat) else [n.left, n.right]
+
+            def lit(x: Any) -> str:
+                return x.value if isinstance(x, nodes.Const) and isinstance(x.value, str) and re.fullmatch(r"\w+", x.value) else ""
+
+            if affix_excludes_keywords(lit(parts[0]), lit(parts[-1])):
+                return None
+            if any(isinstance(x, nodes.Const) and isinstance(x.value, str) and re.search(r"\W", x.value) for x in parts):
+                return None  # the text written here contains a delimiter of its own: it is not one name token
+            return f"`{expr_text(n)[:70]}` puts the name together from parts, none of them a literal affix that no keyword has"
+        if isinstance(n, nodes.Name):
+            defs = self.sets_of(tname).get(n.name, [])
+            defs = [d for d in defs if d[0] in (macro, "<top>")] or defs
+            if defs and depth > 0:
+                for m2, d in defs:
+                    if isinstance(d, nodes.AssignBlock):
+                        return f"`{n.name[:50]}` is a block of template text"
+                    why = self.reason(tname, m2, d.node, labels, depth - 1)
+                    if why:
+                        return why
+                return None
+            m_ = self.jx.templates[tname].macros.get(macro)
+            params = [a.name for a in m_.args] if m_ is not None else []
+            if n.name in params and depth > 0:
+                i = params.index(n.name)
+                j = i - (len(params) - len(m_.defaults))
+                supplied = [(tname, "<top>", m_.defaults[j])] if j >= 0 else []
+                for t2, m2, c in self.calls_of(macro):
+                    a = next((k.value for k in c.kwargs if k.key == n.name), c.args[i] if i < len(c.args) else None)
+                    if a is not None:
+                        supplied.append((t2, m2, a))
+                for t2, m2, a in supplied:
+                    why = self.reason(t2, m2, a, labels, depth - 1)
+                    if why:
+                        return why
+                if supplied:
+                    return None
+        return self.leaf(n, labels)
+
+    def leaf(self, n: Any, labels: frozenset[str]) -> "str | None":
+        if WORD not in labels:
+            return None  # constructor results, constants of the repository, numbers (anything else is reported by the clause on material)
+        text = _without_grouping_parentheses(expr_text(n))
+        fields = "|".join(sorted(re.escape(x) for x in self.member_fields))
+        keys = rf"(?:\.items\(\)\[\*\]\.0|\.keys\(\)\[\*\]|\[\*\]|\|dictsort(?:\([^()]*\))?\[\*\]\.0)"
+        if fields and re.fullmatch(rf"[\w.\[\]*]+\.(?:{fields}){keys}", text):
+            return None  # a key of the member table: R09.1 decides `not-reserved` for every store into it
+        return (f"`{text[:70]}` carries the output of a word helper (snake_case & co.), which does not rename reserved words, "
+                "and is printed without an affix")
+
+
+def name_positions(jx: Any) -> list[tuple[str, str, Any, str, str, str]]:
+    """(template, macro, printed expression node, kind, literal text of the same token right before the expression, right after it)
+    of every `{{ ... }}` that stands at an identifier-required position."""
     from jinja2 import nodes
 
-    out: list[tuple[str, str, Any, str]] = []
+    out: list[tuple[str, str, Any, str, str, str]] = []
 
     def walk(body: list[Any], tname: str, macro: str, tail: str) -> str:
         """tail: text of the current generated line so far; returns the tail after the body"""
@@ -404,7 +647,11 @@ def name_positions(jx: Any) -> list[tuple[str, str, Any, str]]:
                             after += _PH
                     kind = position_kind(tail, after.split("\n", 1)[0]) if _UNKNOWN not in tail else None
                     if kind is not None:
-                        out.append((tname, macro, c, kind))
+                        # the token the expression is printed into: identifier characters the template writes right around it
+                        # (another printed expression adjoining it ends the literal part)
+                        pre = re.search(rf"{_W}*$", tail).group(0).rsplit(_PH, 1)[-1]  # type: ignore[union-attr]
+                        suf = re.match(rf"{_W}*", after).group(0).split(_PH, 1)[0]  # type: ignore[union-attr]
+                        out.append((tname, macro, c, kind, pre, suf))
                     tail += _PH
             elif isinstance(n, nodes.If):
                 ends = [walk(n.body, tname, macro, tail)]
@@ -1116,3 +1363,137 @@ def check_no_silent_loss(rep: Report, ctx: Any, rid: str, sources: set[str]) -> 
     rep.floor("already_collected_decisions", n_dec, 1)
     rep.not_decided.append(f"{rid}: items left out by a filter that is not an `if` statement of the filling loop or of the generator it iterates "
                            "(a comprehension condition, filter()); that the comparison made with the identity is an equality")
+
+
+# ---- R09.7: the directory that is the package carries the package name -----------------------------------------------------------
+def _held_test(lc: Locals, t: ast.expr, params: set[str]) -> "ast.expr | None":
+    """the test whose outcome the local t holds (bound once, to something that is not just another name)"""
+    if isinstance(t, ast.Name) and t.id not in params:
+        ds = lc.defs.get(t.id, [])
+        if len(ds) == 1 and ds[0][0] == "assign" and ds[0][2] is not None and not isinstance(ds[0][2], ast.Name):
+            return ds[0][2]
+    return None
+
+
+def _atoms_of(t: ast.expr, out: dict[str, None], lc: Locals, params: set[str], depth: int = 3) -> None:
+    held = _held_test(lc, t, params) if depth > 0 else None
+    if isinstance(t, ast.BoolOp):
+        for v in t.values:
+            _atoms_of(v, out, lc, params, depth)
+    elif isinstance(t, ast.UnaryOp) and isinstance(t.op, ast.Not):
+        _atoms_of(t.operand, out, lc, params, depth)
+    elif held is not None:
+        _atoms_of(held, out, lc, params, depth - 1)
+    else:
+        out.setdefault(_atom(t)[0])
+
+
+def _atom(t: ast.expr) -> tuple[str, bool]:
+    """(text of the positive form of a test, whether t is that form): `a != b` is `a == b` negated, `a is not b` is `a is b` negated"""
+    if isinstance(t, ast.Compare) and len(t.ops) == 1 and isinstance(t.ops[0], (ast.NotEq, ast.IsNot, ast.NotIn)):
+        pos = {ast.NotEq: ast.Eq, ast.IsNot: ast.Is, ast.NotIn: ast.In}[type(t.ops[0])]()
+        return norm(ast.Compare(left=t.left, ops=[pos], comparators=t.comparators)), False
+    return norm(t), True
+
+
+def check_package_directory(rep: Report, ctx: Any, rid: str) -> None:
+    """The package is imported under the name of its directory.  The generator prints one name as the package's import name
+    (`package_name`: README, pyproject / setup `packages`) - so wherever it chooses the directory itself, that directory's last
+    component is that name, whatever the layout (the package below the project directory, or the project directory being the
+    package)."""
+    from .c19loc import MISSING, Placement
+
+    ix = ctx.py
+    rep.rule(rid, "the directory that is the importable package (Project.package_dir) is named by the package name: for every way the "
+                  "tests of the constructor can come out, each value package_dir ends up with - read through project_dir where it is "
+                  "project_dir itself - is either the location the user named "
+                  "(Config.output_path, R19.5) or a path whose last component is `self.package_name`, the name the templates print "
+                  "as the import name.  Tests are decided per truth assignment of their atoms, however they are written")
+    proj = ix.cls("Project")
+    init = proj.methods.get("__init__")
+    rep.require(init, "Project.__init__")
+    atoms: dict[str, None] = {}
+    lc_init = Locals(init.node)
+    params_init = {a.arg for a in init.params}
+    for n in ast.walk(init.node):
+        if isinstance(n, (ast.If, ast.IfExp, ast.While)):
+            _atoms_of(n.test, atoms, lc_init, params_init)
+    names = sorted(atoms)
+    rep.require(len(names) <= 10, "at most ten distinct tests in Project.__init__")
+
+    class Under(Placement):
+        """Placement with the tests that are not about the field decided by a truth assignment"""
+        sigma: dict[str, bool] = {}
+
+        def decide(self, f: Any, given: frozenset) -> Any:
+            base = super().decide(f, given)
+
+            def ev(t: ast.expr) -> "bool | None":
+                v = base(t)
+                if v is not None:
+                    return v
+                if isinstance(t, ast.UnaryOp) and isinstance(t.op, ast.Not):
+                    w = ev(t.operand)
+                    return None if w is None else not w
+                if isinstance(t, ast.BoolOp):
+                    xs = [ev(x) for x in t.values]
+                    if isinstance(t.op, ast.And):
+                        return False if any(x is False for x in xs) else (True if all(x is True for x in xs) else None)
+                    return True if any(x is True for x in xs) else (False if all(x is False for x in xs) else None)
+                held = _held_test(lc_init, t, params_init) if f is init else None
+                if held is not None:
+                    return ev(held)
+                text, positive = _atom(t)
+                if f is init and text in self.sigma:
+                    return self.sigma[text] == positive
+                return None
+
+            return ev
+
+    me = init.params[0].arg if init.params else "self"
+
+    def is_self_attr(x: Any, attr: str) -> bool:
+        return isinstance(x, ast.Attribute) and x.attr == attr and isinstance(x.value, ast.Name) and x.value.id == me
+
+    def last_component(x: Any) -> Any:
+        if isinstance(x, ast.BinOp) and isinstance(x.op, ast.Div):
+            return x.right
+        if isinstance(x, ast.Call) and isinstance(x.func, ast.Attribute) and x.func.attr == "joinpath" and x.args and not x.keywords:
+            return x.args[-1]
+        return None
+
+    bad: dict[str, tuple[Any, str]] = {}
+    n_vals = 0
+    for bits in range(1 << len(names)):
+        sigma = {a: bool(bits >> i & 1) for i, a in enumerate(names)}
+        for decided in (True, False):  # the user named a location / did not
+            pl = Under(ix, "output_path", decided=decided)
+            pl.sigma = sigma
+            vals = pl.final(init, "package_dir")
+            work = []
+            for g, gv, x in vals:
+                if g is init and is_self_attr(x, "project_dir"):
+                    work += pl.final(init, "project_dir")
+                else:
+                    work.append((g, gv, x))
+            for g, gv, x in work:
+                n_vals += 1
+                if x is MISSING:
+                    continue
+                if decided and pl.denotes(g, gv, x):
+                    continue
+                comp = last_component(x)
+                if comp is not None and g is init and all(is_self_attr(c_, "package_name") for _g, _gv, c_ in pl.values(g, gv, comp)):
+                    continue
+                if not decided and isinstance(x, ast.Attribute) and x.attr == "output_path":
+                    continue  # (taken when it is set; the assignment does not say so)
+                text = norm(x)[:80]
+                bad.setdefault(text, (x, ", ".join(f"{'' if v else 'not '}[{a[:40]}]" for a, v in sigma.items())))
+    rep.floor("package_dir_values", n_vals, 2)
+    where_ = f"{init.module.rel}:{init.node.lineno}"
+    rep.check(not bad, rid, "Project.package_dir::named-by-package_name",
+              "the directory that is the importable package can be a directory the generator names otherwise than by package_name: "
+              f"{[f'`{t_}` when {w}' for t_, (_x, w) in sorted(bad.items())][:3]} - `import <package_name>` (README, pyproject) does not "
+              "find it, and a project name is not an identifier",
+              where=next((f"{init.module.rel}:{x.lineno}" for x, _w in bad.values() if hasattr(x, "lineno")), where_),
+              lhs=sorted(bad) or "every value", rhs="config.output_path | <dir> / self.package_name")
